@@ -360,6 +360,11 @@ def _rand_surface(rng, shape, dtype):
         vals = [float(np.dtype(dtype).type(v * sc)) for v in vals]
         if rng.random() < 0.2:
             vals = [(-0.0 if v == 0 and rng.random() < .5 else v) for v in vals]
+        if rng.random() < 0.15:
+            # +-inf (no NaN) and subnormals: still a strict weak order; equal costs stay equal after the dense-rank reduction
+            tiny = 1e-45 if dtype == 'float32' else 5e-324
+            ext = [float('inf'), float('-inf'), tiny, -tiny, 0.0]
+            vals = [(float(np.dtype(dtype).type(rng.choice(ext))) if rng.random() < 0.3 else v) for v in vals]
     return vals
 
 
